@@ -280,7 +280,7 @@ def run(report, p):
                     r5.check(not [b for b in brk if _loop_of(b) is n.ast], dh, n.ast, "comparison loop over recorded entries can be left early (break)", construct=f"break in for {norm(n.ast.target)}")
                     break
     # every consumed verdict of the comparison helper reaches the failure map
-    helpers = {t for c, tg in p.calls[dh.qual] for t in tg if t in p.funcs and p.funcs[t].outer is None and any("hash_string" in norm(x) and isinstance(x, ast.Compare) for x in walk_no_nested(p.funcs[t].node))}
+    helpers = {t for c, tg in p.calls[dh.qual] for t in tg if t in p.funcs and p.funcs[t].outer is None and any("structure_hash_string" in norm(x) and isinstance(x, ast.Compare) for x in walk_no_nested(p.funcs[t].node))}
     n_verdicts = 0
     for call, tg in p.calls[dh.qual]:
         if any(t in helpers for t in tg):
